@@ -266,9 +266,9 @@ def audit(prop, modules):
         )
     out = p.stdout + p.stderr
     res = {}
-    for m in re.finditer(r"'([^']+)' depends on axioms: \[([^\]]*)\]", out, flags=re.S):
+    for m in re.finditer(r"^'(\S+)' depends on axioms: \[([^\]]*)\]", out, flags=re.S | re.M):
         res[m.group(1)] = [a.strip() for a in m.group(2).replace("\n", " ").split(",") if a.strip()]
-    for m in re.finditer(r"'([^']+)' does not depend on any axioms", out):
+    for m in re.finditer(r"^'(\S+)' does not depend on any axioms", out, flags=re.M):
         res[m.group(1)] = []
     result = {"theorems": thms, "axioms": res, "ok": p.returncode == 0, "log": out[-2000:] if p.returncode else ""}
     cache_file.write_text(json.dumps({"key": key, "result": result}))
